@@ -1,5 +1,6 @@
 import OxiVerif.Lemmas.C09Tree
 import OxiVerif.Lemmas.C09LibTree
+import OxiVerif.Lemmas.C09Names
 import OxiVerif.Model.ObjCanon
 set_option linter.unusedSimpArgs false
 /-!
@@ -18,8 +19,18 @@ parametric in the formatter through the *syntactic* hypothesis `IsDecTok (trimRe
 emitted real is a decimal token", checked at run time on every emitted real).  Dictionaries come
 back in the order they were written = sorted by key (`sortDicts`), i.e. equal up to key order.
 
-Both halves of the property are FALSE of the code as it is; the full statements are kept below,
-each with kernel-checked counter-witnesses, and proved under the decidable predicates
+Names: since commit 16fac722 the writer escapes names and dictionary keys
+(`escape_pdf_name_bytes` = `Model.escapeName`), so on the independent-reader side **every** byte
+string is read back (`C09_spec_name_all_bytes`, and inside trees: `SafeSpec` only asks that names
+are byte strings).  The library's `read_name` builds its `String` one `char` per byte
+(`byte as char`, `value as char` for `#XX`): the `char`s it returns are exactly the written bytes
+for every byte string (`C09_lib_name_all_bytes`), and the `String` made of those `char`s is the
+written `String` exactly for ASCII names (`C09_lib_name_same_string_iff`) — a non-ASCII name comes
+back Latin-1-decoded (`C09_witness_lib_name_non_ascii`, finding C09-F6).  The statements about the
+writer *before* that commit are kept on `serUnescaped` (the regression the check must catch).
+
+Both halves of the property are still FALSE of the code as it is; the full statements are kept
+below, each with kernel-checked counter-witnesses, and proved under the decidable predicates
 `SafeLib` / `SafeSpec` (`Model/C09.lean`) which the driver evaluates on every generated case.
 -/
 namespace OxiVerif.C09
@@ -34,8 +45,9 @@ open OxiVerif.Spec
      `ObjParser.parseObj fuel (ser v ++ rest) = .ok (readBack (sortDicts v), rest)`.
    False: see `C09_witness_lib_*`. -/
 
-/-- T1 on the safe fragment: names without terminators / `#` / non-ASCII, no `i g /R` look-alike
-    after an integer, integer tokens inside `i64`, references with object number ≤ 9 999 999. -/
+/-- T1 on the safe fragment: ASCII names (any ASCII byte: white space, delimiters, `#`, controls
+    included), no `i g /R` look-alike after an integer, integer tokens inside `i64`, references
+    with object number ≤ 9 999 999. -/
 theorem C09_lib_roundtrip_partial (v : Obj) (rest : List Nat) (fuel : Nat)
     (hs : SafeLib (sortDicts v) rest = true) (hf : needFT (sortDicts v) + 1 ≤ fuel) :
     ObjParser.parseObj fuel (ser v ++ rest) = .ok (readBack (sortDicts v), rest) :=
@@ -44,7 +56,7 @@ theorem C09_lib_roundtrip_partial (v : Obj) (rest : List Nat) (fuel : Nat)
 /-- non-vacuity: a nested tree with a real, a string full of delimiters and a CR, a reference,
     inside the annotation-object trailer the harness uses -/
 example : SafeLib (sortDicts (.dict [([75], .arr [.int 1, .real [50, 46, 53, 48, 48, 48, 48, 48],
-      .str [40, 41, 92, 13, 10], .ref 7 0, .name [65, 123]]), ([65], .hexstr [0, 255])]))
+      .str [40, 41, 92, 13, 10], .ref 7 0, .name [65, 32, 47, 35, 0, 123]]), ([65, 32, 66], .hexstr [0, 255])]))
     [10, 62, 62, 10, 101, 110, 100, 111, 98, 106, 10] = true := by rfl
 
 /-- Strings on the library side need no hypothesis at all: `escape_pdf_string_bytes` followed by
@@ -62,26 +74,68 @@ theorem C09_lib_hexstring (bs rest : List Nat) (hb : allB (fun b => b < 256) bs 
 
 example : allB (fun b => b < 256) [0, 127, 255] = true := by decide
 
-theorem C09_lib_name_partial (n rest : List Nat) (hn : LibNameOk n = true) (hr : libEnds rest = true) :
+/-- Names on the library side, **every** byte string: the name token holds one `char` per
+    written byte (regular bytes `byte as char`, `#XX` decoded and pushed `value as char`). -/
+theorem C09_lib_name_all_bytes (n rest : List Nat) (hn : NameBytes n = true) (hr : libEnds rest = true) :
     Lexer.next (ser (.name n) ++ rest) = .ok (.name n, rest) :=
-  lib_next_name n rest hn hr
+  lib_next_name_bytes n rest hn hr
+
+example : NameBytes [65, 32, 47, 35, 0, 123, 125, 195, 169, 255] = true ∧ libEnds [32] = true := by decide
+
+/-- … and the Rust `String` those `char`s form (`utf8OfLatin1`) is the written `String` exactly
+    when the name is ASCII: this is precisely the class for which T1 holds for names. -/
+theorem C09_lib_name_same_string_iff (n : List Nat) :
+    ObjCanon.utf8OfLatin1 n = n ↔ NameAscii n = true :=
+  utf8OfLatin1_eq_iff n
+
+/-- ASCII names (white space, delimiters, `#`, controls included) are read back as the same
+    `String` -/
+theorem C09_lib_name_ascii (n rest : List Nat) (hn : NameAscii n = true) (hr : libEnds rest = true) :
+    Lexer.next (ser (.name n) ++ rest) = .ok (.name n, rest) ∧ ObjCanon.utf8OfLatin1 n = n :=
+  ⟨lib_next_name n rest hn hr, (utf8OfLatin1_eq_iff n).2 hn⟩
+
+example : NameAscii [65, 32, 47, 35, 0, 123, 125, 127] = true ∧ libEnds [32] = true := by decide
+
+/-- the former witnesses now read back: `A B`, `A#41` -/
+example : ObjParser.parse (ser (.name [65, 32, 66]) ++ [10, 62, 62]) = .ok (.name [65, 32, 66], [10, 62, 62]) := by rfl
+example : ser (.name [65, 32, 66]) = [47, 65, 35, 50, 48, 66] := by rfl
+example : ObjParser.parse (ser (.name [65, 35, 52, 49]) ++ [32]) = .ok (.name [65, 35, 52, 49], [32]) := by rfl
+
+/-- counter-witness (C09-F6, what is left of F1): the non-ASCII name `é` (UTF-8 `C3 A9`) is
+    written `/#C3#A9` and comes back as the two `char`s U+00C3 U+00A9, i.e. as the `String` "Ã©"
+    (UTF-8 `C3 83 C2 A9`) -/
+theorem C09_witness_lib_name_non_ascii :
+    ser (.name [195, 169]) = [47, 35, 67, 51, 35, 65, 57] ∧
+    ObjParser.parse (ser (.name [195, 169]) ++ [32]) = .ok (.name [195, 169], [32]) ∧
+    ObjCanon.utf8OfLatin1 [195, 169] = [195, 131, 194, 169] := by
+  refine ⟨?_, ?_, ?_⟩ <;> rfl
+
+theorem C09_witness_lib_name_non_ascii_ne : ObjCanon.utf8OfLatin1 [195, 169] ≠ [195, 169] := by
+  decide
+
+/-! ### the writer before commit 16fac722 (names written raw): the regression -/
+
+/-- a raw ASCII name without terminators and `#` was (and, written verbatim, is) lexed back -/
+theorem C09_lib_raw_name (n rest : List Nat) (hn : LibNameOk n = true) (hr : libEnds rest = true) :
+    Lexer.next (serUnescaped (.name n) ++ rest) = .ok (.name n, rest) :=
+  lib_next_name_raw n rest hn hr
 
 example : LibNameOk [65, 123, 0, 125] = true ∧ libEnds [32] = true := by decide
 
-/-- counter-witness: the name `A B` is written raw; the library reads the name `A` and leaves ` B` -/
+/-- regression witness: the name `A B` written raw; the library reads the name `A` and leaves ` B` -/
 theorem C09_witness_lib_name_space :
-    ObjParser.parse (ser (.name [65, 32, 66]) ++ [10, 62, 62]) = .ok (.name [65], [32, 66, 10, 62, 62]) := by
+    ObjParser.parse (serUnescaped (.name [65, 32, 66]) ++ [10, 62, 62]) = .ok (.name [65], [32, 66, 10, 62, 62]) := by
   rfl
 
-/-- … hence T1 fails for it -/
+/-- … hence T1 fails for the unescaped writer -/
 theorem C09_witness_lib_name_space_ne :
-    ObjParser.parse (ser (.name [65, 32, 66]) ++ [10, 62, 62])
+    ObjParser.parse (serUnescaped (.name [65, 32, 66]) ++ [10, 62, 62])
       ≠ .ok (readBack (sortDicts (.name [65, 32, 66])), [10, 62, 62]) := by
   rw [C09_witness_lib_name_space]; simp [readBack, sortDicts]
 
-/-- counter-witness: `A#41` is written raw and read as `AA` -/
+/-- regression witness: `A#41` written raw is read as `AA` -/
 theorem C09_witness_lib_name_hash :
-    ObjParser.parse (ser (.name [65, 35, 52, 49]) ++ [32]) = .ok (.name [65, 65], [32]) := by rfl
+    ObjParser.parse (serUnescaped (.name [65, 35, 52, 49]) ++ [32]) = .ok (.name [65, 65], [32]) := by rfl
 
 /-- counter-witness: the array `[1 0 /R]` (two integers and the *name* R) is read as the single
     reference `1 0 R` -/
@@ -94,13 +148,6 @@ theorem C09_witness_lib_ref_lookalike_ne :
       ≠ .ok (readBack (sortDicts (.arr [.int 1, .int 0, .name [82]])), [10, 62, 62]) := by
   rw [C09_witness_lib_ref_lookalike]
   simp [readBack, readBackList, sortDicts, sortDictsList]
-
-/-- counter-witness: the non-ASCII name `é` (UTF-8 `C3 A9`) comes back as the two `char`s
-    U+00C3 U+00A9, i.e. as the `String` "Ã©" (UTF-8 `C3 83 C2 A9`) -/
-theorem C09_witness_lib_name_non_ascii :
-    ObjParser.parse (ser (.name [195, 169]) ++ [32]) = .ok (.name [195, 169], [32]) ∧
-    ObjCanon.utf8OfLatin1 [195, 169] = [195, 131, 194, 169] := by
-  constructor <;> rfl
 
 /-- counter-witness: `Real(1e19)` is written as the integer token `10000000000000000000`, which
     the library's lexer rejects (`i64` overflow) -/
@@ -120,15 +167,15 @@ theorem C09_witness_lib_far_ref :
      `Syntax.readObj fuel (ser v ++ rest) = some (readBack (sortDicts v), rest)`.
    False: see `C09_witness_spec_*`. -/
 
-/-- T2 on the safe fragment: names made of regular characters without `#`, literal strings
-    without CR, no integer that the following bytes turn into `n g R`. -/
+/-- T2 on the safe fragment: names and keys over ALL bytes, literal strings without CR, no
+    integer that the following bytes turn into `n g R`. -/
 theorem C09_spec_roundtrip_partial (v : Obj) (rest : List Nat) (fuel : Nat)
     (hs : SafeSpec (sortDicts v) rest = true) (hf : need (sortDicts v) ≤ fuel) :
     Syntax.readObj fuel (ser v ++ rest) = some (readBack (sortDicts v), rest) :=
   spec_obj_roundtrip (sortDicts v) rest fuel hs hf
 
 example : SafeSpec (sortDicts (.dict [([75], .arr [.int 1, .real [50, 46, 53, 48, 48, 48, 48, 48],
-      .str [40, 41, 92, 10], .ref 7 0, .name [65, 43]]), ([65], .hexstr [0, 255])]))
+      .str [40, 41, 92, 10], .ref 7 0, .name [65, 32, 47, 35, 0, 195, 169, 255]]), ([65, 32, 66], .hexstr [0, 255])]))
     [10, 62, 62, 10, 101, 110, 100, 111, 98, 106, 10] = true := by rfl
 
 /-- the same serializer writes objects inside object streams -/
@@ -153,25 +200,56 @@ theorem C09_spec_int (i : Int) (rest : List Nat) (fuel : Nat) (hr : specEnds res
 
 example : specEnds [93] = true ∧ Syntax.refAhead [93] = none := by constructor <;> rfl
 
-theorem C09_spec_name_partial (n rest : List Nat) (hn : SpecNameOk n = true) (hr : specEnds rest = true) :
+/-- Names on the independent-reader side: **every** byte string is read back. -/
+theorem C09_spec_name_all_bytes (n rest : List Nat) (fuel : Nat) (hn : NameBytes n = true)
+    (hr : specEnds rest = true) :
+    Syntax.readObj (fuel + 1) (ser (.name n) ++ rest) = some (.name n, rest) :=
+  spec_obj_roundtrip (.name n) rest (fuel + 1) (by simp [SafeSpec, hn, hr]) (by simp [need])
+
+example : NameBytes [65, 32, 47, 35, 0, 123, 125, 195, 169, 255] = true ∧ specEnds [32] = true := by decide
+
+/-- a dictionary key over all bytes (the key path of `serEntries`) -/
+theorem C09_spec_key_all_bytes (k rest : List Nat) (i : Int) (fuel : Nat) (hk : NameBytes k = true)
+    (hi : i < 0) (hr : specEnds rest = true) :
+    Syntax.readObj (fuel + 4) (ser (.dict [(k, .int i)]) ++ rest) = some (.dict [(k, .int i)], rest) := by
+  have e : ser (.dict [(k, .int i)]) = serRaw (.dict [(k, .int i)]) := by
+    simp [ser, sortDicts, sortDictsKVs, sortKV, insertKV]
+  rw [e]
+  exact spec_obj_roundtrip (.dict [(k, .int i)]) rest (fuel + 4)
+    (by simp [SafeSpec, SafeSpecEntries, hk, hi, serEntries, specEnds, Syntax.isRegular, Syntax.isWhite])
+    (by simp [need, needKVs])
+
+example : NameBytes [32, 47, 255] = true ∧ ((-1 : Int) < 0) ∧ specEnds [10] = true := by decide
+
+/-- the former witnesses now read back -/
+example : Syntax.read (ser (.name [65, 32, 66]) ++ [10, 62, 62]) = some (.name [65, 32, 66], [10, 62, 62]) := by rfl
+example : Syntax.read (ser (.name [65, 47, 66]) ++ [32]) = some (.name [65, 47, 66], [32]) := by rfl
+
+/-! ### the writer before commit 16fac722: the regression -/
+
+/-- a raw name made of regular characters without `#` is read back verbatim -/
+theorem C09_spec_raw_name (n rest : List Nat) (hn : SpecNameOk n = true) (hr : specEnds rest = true) :
     Syntax.readName (n ++ rest) = some (n, rest) :=
   spec_readName_raw n rest hn hr
 
 example : SpecNameOk [65, 43, 126, 200] = true := by decide
 
-/-- counter-witness: `A B` under the independent reader -/
+/-- regression witness: `A B` written raw under the independent reader -/
 theorem C09_witness_spec_name_space :
-    Syntax.read (ser (.name [65, 32, 66]) ++ [10, 62, 62]) = some (.name [65], [32, 66, 10, 62, 62]) := by
+    Syntax.read (serUnescaped (.name [65, 32, 66]) ++ [10, 62, 62]) = some (.name [65], [32, 66, 10, 62, 62]) := by
   rfl
 
 theorem C09_witness_spec_name_space_ne :
-    Syntax.read (ser (.name [65, 32, 66]) ++ [10, 62, 62])
+    Syntax.read (serUnescaped (.name [65, 32, 66]) ++ [10, 62, 62])
       ≠ some (readBack (sortDicts (.name [65, 32, 66])), [10, 62, 62]) := by
   rw [C09_witness_spec_name_space]; simp [readBack, sortDicts]
 
-/-- counter-witness: `A/B` is read as the name `A` (then the name `B` follows) -/
+/-- regression witness: `A/B` written raw is read as the name `A` (then the name `B` follows) -/
 theorem C09_witness_spec_name_solidus :
-    Syntax.read (ser (.name [65, 47, 66]) ++ [32]) = some (.name [65], [47, 66, 32]) := by rfl
+    Syntax.read (serUnescaped (.name [65, 47, 66]) ++ [32]) = some (.name [65], [47, 66, 32]) := by rfl
+
+/-- on trees without names the two serializers agree, so everything else is unchanged -/
+example : serUnescaped (.arr [.int 1, .str [40], .ref 2 0]) = ser (.arr [.int 1, .str [40], .ref 2 0]) := by rfl
 
 /-- counter-witness: a CR inside a literal string is written raw; a conforming reader delivers LF -/
 theorem C09_witness_spec_string_cr :
@@ -186,11 +264,10 @@ theorem C09_spec_ref_lookalike_ok :
     Syntax.read (ser (.arr [.int 1, .int 0, .name [82]]) ++ [10, 62, 62])
       = some (.arr [.int 1, .int 0, .name [82]], [10, 62, 62]) := by rfl
 
-/-! ## the repair's specification: escaped name emission -/
+/-! ## the incremental writer's name emission -/
 
 /-- `write_name` of the incremental writer (alphanumerics and ``+-._@$:;*?`` verbatim, every other
-    byte as `#XX`) is read back by the independent reader for **every** byte string — this is the
-    emission proposed for `write_object_value`'s `Name` arm and dictionary keys. -/
+    byte as `#XX`) is read back by the independent reader for **every** byte string. -/
 theorem C09_escaped_name_spec_all_bytes (n d : List Nat) (hb : allB (fun b => b < 256) n = true)
     (hd : specEnds d = true) : Syntax.readName (incNameBody n ++ d) = some (n, d) :=
   spec_readName_escaped n d hb hd
